@@ -660,6 +660,19 @@ fn apply(t: &mut Sink, m: &mut SM, op: &WOp, seq_no: usize, stats: &mut Stats) -
         return Ok(false);
     }
     if r.is_err() {
+        // a panic that follows an out-of-bounds write is reported as the out-of-bounds write
+        let mut rs = vec![];
+        regions(m, &mut rs);
+        let a = arena();
+        for i in 0..ARENA {
+            let inside = rs.iter().any(|(o, c, _)| i >= *o && i < *o + *c);
+            if !inside && a[i] != GUARD {
+                return Err(f11("panic-after-write-outside", format!("{} of {} bytes (remaining_mut() = {}) modified a byte outside every writable region (arena offset {}) and then panicked", name, bytes.len(), rem, i)));
+            }
+        }
+        if let Some(v) = oracle::check_canaries() {
+            return Err(f11("panic-after-heap-overflow", format!("{} of {} bytes (remaining_mut() = {}) panicked after: {}", name, bytes.len(), rem, v)));
+        }
         return Err(f11(&format!("{}:panic", name.split('(').next().unwrap()), format!("{} of {} bytes panicked although remaining_mut() = {}", name, bytes.len(), rem)));
     }
     let before_fixed = if m.fixed_only() { Some(m.rem()) } else { None };
